@@ -187,6 +187,8 @@ class Prop(PoolProp):
         return "results:" + "|".join(",".join(r) for r in env.results) + " # " + env.digest()
 
     def oracle(self, cfg, env, status, steps):
+        if status.startswith(("stuck:", "scheduler:")):
+            return None  # the run could not be controlled: nothing observed about the property (compare() reports it)
         if status != "done":
             return (f"the storage operations do not terminate: {status}", "deadlock:" + status)
         stores = {}  # gid -> list of (text, result)
